@@ -3,7 +3,7 @@
 use lightning::chain;
 use std::collections::HashMap;
 use std::sync::atomic::{AtomicU32, Ordering};
-use std::sync::{Arc, Mutex};
+use std::sync::Arc;
 
 use teos_common::appointment::{compute_appointment_slots, Locator};
 use teos_common::constants::ENCRYPTED_BLOB_MAX_SIZE;
@@ -13,6 +13,7 @@ use teos_common::UserId;
 
 use crate::dbm::DBM;
 use crate::extended_appointment::{ExtendedAppointment, UUID};
+use crate::vsync::Mutex;
 
 /// Data regarding a user subscription with the tower.
 #[derive(Debug, Clone, Copy, PartialEq, Eq)]
